@@ -475,6 +475,8 @@ def harness_specs(tier):
     specs = [dict(name=t['name'], src=t['src'], flavour=t['flavour'], extra=t['extra']) for t in TUS if tier in t['tiers']]
     if not os.environ.get('C10_ONLY') or 'h_c10_adl' in os.environ['C10_ONLY']:
         specs.append(dict(ADL))
+    if not os.environ.get('C10_ONLY') or 'h_c10s' in os.environ['C10_ONLY']:
+        specs.append(dict(name='h_c10s', src='h_c10s.cpp', flavour='fast'))      # number-typed views into supplied scalar outputs
     return specs
 
 
@@ -665,8 +667,30 @@ def adl_cases():
                        oracle='ok lazy=1 shape=%s data=%s' % (fmt(r.shape), fmt(r.reshape(-1))), tags=tg + ['op=split'])
 
 
+def intonum_cases(tier, rng):
+    """a view that is a NUMBER (reduction over every axis) evaluated into a caller-supplied scalar that holds a sentinel
+    (non-zero) before the call: the output must BE the value afterwards, also when the variable is reused (seeded C10-2:
+    `output += value` is invisible when the library value-initialises the output itself)"""
+    if os.environ.get('C10_ONLY') and 'h_c10s' not in os.environ['C10_ONLY']:
+        return
+    shp = [[4], [2, 3], [3, 1, 2]] if tier == 'quick' else [[4], [7], [2, 3], [3, 2], [3, 1, 2], [2, 2, 2]]
+    for s in shp:
+        x = np.array([(k % 5) + 1 for k in range(prod(s))], dtype=np.float64)
+        ref = {'sum': float(x.sum()), 'prod': float(x.prod()), 'amax': float(x.max()), 'amin': float(x.min()), 'mean': float(x.mean())}
+        for fn in ('sum', 'prod', 'amax', 'amin', 'mean'):
+            for et in (('d',) if fn == 'mean' else ('i', 'd')):
+                for sent in (100, -7, 0, 1):
+                    for mode in (('fn',) if fn in ('amax', 'amin', 'mean') else ('fn', 'eval', 'reuse')):
+                        v = ref[fn]
+                        tok = ('%.17g' % v)
+                        exp = 'ok out=' + tok + ((' out2=' + tok) if mode == 'reuse' else '')
+                        yield Case('intonum fn=%s et=%s a=%s sentinel=%d mode=%s' % (fn, et, fmt(s), sent, mode), 'h_c10s', oracle=exp, model=False,
+                                   nontrivial=True, tags=['intonum', 'fn=' + fn, 'mode=' + mode, 'sentinel=' + ('zero' if sent == 0 else 'non-zero')])
+
+
 def gen(tier, rng):
     yield from nothing_cases(tier)
+    yield from intonum_cases(tier, rng)
     yield from adl_cases()
     yield from intofn_cases(tier, rng)
     for t in TUS:
